@@ -59,7 +59,13 @@ pub fn gen_head(r: &mut StdRng) -> Vec<u8> {
     }
     let maxf = if r.gen_bool(0.1) { 40 } else { 4 };
     for _ in 0..r.gen_range(0..=maxf) {
-        h.extend(pick(r, TCHAR, 1, 12));
+        let mut name = pick(r, TCHAR, 1, 12);
+        if r.gen_bool(0.02) {
+            // a delimiter inside the field name: not a token, the head is rejected
+            let at = r.gen_range(0..=name.len());
+            name.insert(at, *b"(),/;<=>?@[\\]{}\"".choose(r).unwrap());
+        }
+        h.extend(name);
         h.push(b':');
         h.extend(pick(r, b" \t", 0, 2));
         let n = r.gen_range(0..20usize);
